@@ -194,3 +194,36 @@ def join_templates(seed, n, base_id, k=5, letters=(A, B), sigma=(A, B, 120), p_e
         if p.well_formed():
             out.append(p)
     return out
+
+
+
+ASCII_BI = {
+    "lowercase": [[97, 122]], "uppercase": [[65, 90]], "alphabetic": [[65, 90], [97, 122]],
+    "numeric": [[48, 57]], "alphanumeric": [[48, 57], [65, 90], [97, 122]], "whitespace": [[9, 13], [32, 32]],
+    "none": [],
+}
+
+
+def builtin_family(base_id, k=4):
+    """Lexers with two or more large built-in classes (each compiled to its own binary-search
+    table).  Inputs are ASCII only, where the built-in tables are beyond doubt, so the
+    specification's table is the ASCII restriction of the predicate."""
+    progs = []
+    defs = [
+        ([inf_rule(plus(bi("lowercase"))), inf_rule(plus(bi("uppercase"))), skip_rule(chr_(32))], (97, 81, 32)),
+        ([inf_rule(cat(bi("uppercase"), star(bi("lowercase")))), inf_rule(plus(bi("numeric"))),
+          inf_rule(bi("lowercase")), skip_rule(plus(bi("whitespace")))], (97, 81, 55, 32)),
+        ([inf_rule(plus(bi("alphabetic")), ctx=bi("numeric")), inf_rule(plus(bi("lowercase"))),
+          inf_rule(plus(bi("uppercase"))), inf_rule(bi("numeric"))], (97, 81, 55)),
+    ]
+    for i, (rules, sigma) in enumerate(defs):
+        p = Program(base_id + i, [("Init", rules)], sigma=sigma, k=k)
+        p.bi = ASCII_BI
+        progs.append(p)
+    # the same over two rule sets with switches
+    rules0 = [inf_rule(plus(bi("lowercase")), menu=[D(False, 1, 1)]), inf_rule(plus(bi("uppercase"))), skip_rule(chr_(32))]
+    rules1 = [inf_rule(plus(bi("uppercase")), menu=[D(False, 0, 1)]), inf_rule(plus(bi("lowercase"))), skip_rule(chr_(32))]
+    p = Program(base_id + len(defs), [("Init", rules0), ("S1", rules1)], sigma=(97, 81, 32), k=k)
+    p.bi = ASCII_BI
+    progs.append(p)
+    return progs
